@@ -1074,6 +1074,44 @@ def check_bundled_getopt(chk, tier):
 
 
 
+def check_option_arms(chk):
+    """R09.11: the option combination the user wrote is the option combination that takes effect: in main's option switch every
+    statement is reached for exactly one option letter (no arm falls through into the next one), and no two arms assign the same
+    variable - otherwise one option silently implies or overrides another"""
+    from . import c20
+    mtu = astdb.dump_ast(astdb.src('w2c2/main.c'))
+    mainf = mtu.functions.get('main')
+    chk.require(mainf is not None, 'anchor main not found')
+    body = astdb.fn_body(mainf)
+    sws = [n for n in walk(body) if n.get('kind') == 'SwitchStmt' and
+           any(c.get('kind') == 'CaseStmt' for c in walk(n))]
+    gvar = None
+    for n in walk(body):
+        if n.get('kind') == 'BinaryOperator' and n.get('opcode') == '=' and any(c.get('kind') == 'CallExpr' and astdb.callee_name(c) == 'getopt' for c in walk(kids(n)[1])):
+            gvar = astdb.ref_name(kids(n)[0])
+    sws = [sw for sw in sws if gvar and astdb.ref_name(astdb.strip(kids(sw)[0], casts=True)) == gvar]
+    chk.require(len(sws) == 1, 'main has %d switch statements over the getopt result' % len(sws))
+    runs = c20.switch_arm_runs(sws[0], mtu)
+    writers = {}
+    n = 0
+    for labels, st in runs:
+        names = sorted(('-%s' % chr(v)) if isinstance(v, int) and 32 < v < 127 else str(v) for v in labels)
+        n += 1
+        chk.expect(len(labels) <= 1, 'R09.11', 'option-arm-single-entry@%s' % (astdb.loc_str(st) or '?').split(':')[-1],
+                   'a statement of main\'s option switch is reached for the options %s: an arm falls through into the next one, so one option '
+                   'also has the effect of the other' % ', '.join(names), 'main:option-switch', astdb.loc_str(st))
+        for x in walk(st):
+            if x.get('kind') in ('BinaryOperator', 'CompoundAssignOperator') and x.get('opcode', '').endswith('=') and x.get('opcode') not in ('==', '!=', '<=', '>='):
+                v = astdb.ref_name(astdb.strip(kids(x)[0]))
+                if v:
+                    writers.setdefault(v, set()).update(labels)
+    for v, ls in sorted(writers.items()):
+        names = sorted(('-%s' % chr(x)) if isinstance(x, int) and 32 < x < 127 else str(x) for x in ls)
+        chk.expect(len(ls) <= 1, 'R09.11', 'option-variable:%s' % v,
+                   'the option variable %s is assigned on the arms of %s: these options are not independent' % (v, ', '.join(names)), 'main:option-switch')
+    chk.require(n >= 6, 'only %d statements in the option switch' % n)
+
+
 def check_worker_resources(chk, tu):
     """the workers run the same recursive writers as the sequential path, on modules of any nesting depth: they are created with
     default thread attributes (no reduced stack), so that what translates with -f 0 also translates when a worker writes it"""
@@ -1171,6 +1209,8 @@ def run(chk):
     check_worker_call(chk, tu)
     check_worker_resources(chk, tu)
     check_bundled_getopt(chk, chk.tier)
+    check_option_arms(chk)
+    chk.floor('R09.11', 8)
     chk.floor('R09.9', 1)
     c10.check_name_dedup(chk, chk.tier, rule='R09.8')
     check_whole_outputs(chk, chk.tier)
